@@ -57,6 +57,82 @@ def linked_law_needs_active_contact(ctx):
                     "(friction force on an open contact)", f"{rel}:{ap.lineno}")
 
 
+def fixed_point_gate(ctx, fn, C):
+    """The contact fixed point solves for the forces of the active normal contacts AND of the active friction laws; the latter
+    include laws with a constant force reservoir (friction_laws entry with an empty normal index), which are active without
+    any closed normal contact.  The condition that guards the loop has to hold whenever ANY index set whose forces the loop
+    writes is non-empty, otherwise those forces stay zero and Coulomb's law is violated at t0."""
+    from ..model import guards_of, parent
+    rep = ctx.rep
+    loops = [n for n in ast.walk(fn) if isinstance(n, ast.For) and any(isinstance(c, ast.Call) and dotted(c.func) == "prox" for c in ast.walk(n))]
+    if not loops:
+        raise AnalysisError(f"{C}: fixed-point loop (for ... prox(...)) not found")
+    loop = loops[0]
+    writes = {}
+    for n in ast.walk(loop):
+        if isinstance(n, ast.Assign) and len(n.targets) == 1 and isinstance(n.targets[0], ast.Subscript) and isinstance(n.targets[0].value, ast.Name) \
+                and isinstance(n.targets[0].slice, ast.Name) and n.targets[0].value.id.startswith("la_"):
+            writes[n.targets[0].slice.id] = n
+    if len(writes) < 2:
+        raise AnalysisError(f"{C}: write-back of the converged contact forces (la_N0[B_N] = ..., la_F0[B_F] = ...) not recognised")
+    gs = []
+    child, p = loop, parent(loop)
+    while p is not None and p is not fn:
+        if isinstance(p, ast.If) and any(child is x for x in p.body):
+            gs.append(p)
+        child, p = p, parent(p)
+    for idx, w in sorted(writes.items()):
+        blocking = []
+        for g in gs:
+            disj = g.test.values if isinstance(g.test, ast.BoolOp) and isinstance(g.test.op, ast.Or) else [g.test]
+            if not any(idx in {x.id for x in ast.walk(d) if isinstance(x, ast.Name)} for d in disj) \
+                    and any(k in {x.id for x in ast.walk(g.test) if isinstance(x, ast.Name)} for k in writes):
+                blocking.append(g)
+        if blocking:
+            rep.bad("C16.R8", C, blocking[0].test, f"the contact fixed point, which computes `{norm_src(w.targets[0])}`, runs only under `{norm_src(blocking[0].test)}`, "
+                    f"which can be false while `{idx}` is non-empty (friction laws with a constant force reservoir are active without a closed normal contact): "
+                    "their initial friction forces stay zero", f"{SB}:{blocking[0].lineno}")
+        else:
+            rep.ok("C16.R8", C, f"fixed point runs whenever `{idx}` is non-empty" + (f" (guard `{norm_src(gs[0].test)}`)" if gs else " (unguarded)"))
+    return loop
+
+
+def one_solve(ctx, fn, C, loop):
+    """u_dot0, la_g0, la_gamma0 are the unknowns of ONE linear system; once contact forces enter its right-hand side all of them
+    change.  Every returned quantity that stems from the contact-free solve must therefore also be fed by the solves inside the
+    fixed-point loop (else it is the stale contact-free value and M u_dot = h + W_g la_g + ... + W_N la_N + W_F la_F fails)."""
+    from ..dataflow import ReachingDefs
+    rep = ctx.rep
+    cfg = CFG(fn)
+    rd = ReachingDefs(cfg)
+    rets = [n for n in cfg.nodes if n.kind == "stmt" and isinstance(n.ast, ast.Return) and isinstance(n.ast.value, ast.Tuple) and "u_dot0" in norm_src(n.ast)]
+    if not rets:
+        raise AnalysisError(f"{C}: final return not recognised")
+    ret = rets[-1]
+    def solves(node):
+        return {c for c in ast.walk(node) if isinstance(c, ast.Call) and isinstance(c.func, ast.Attribute) and c.func.attr == "solve"} if node is not None else set()
+    in_loop = {id(c) for c in solves(loop)}
+    if not in_loop:
+        raise AnalysisError(f"{C}: no linear solve inside the fixed-point loop")
+    n_ok = 0
+    for e in ret.ast.value.elts:
+        if not isinstance(e, ast.Name):
+            continue
+        nodes, _ = rd.backward_slice(ret, names={e.id})
+        sv = set()
+        for n in nodes:
+            if n is not ret and n.ast is not None and n.kind == "stmt":
+                sv |= {id(c) for c in solves(n.ast)}
+        if not sv - in_loop:
+            continue        # not an unknown of the linear system
+        if in_loop <= sv:
+            n_ok += 1
+            rep.ok("C16.R9", C, f"returned `{e.id}` is fed by the contact-free solve and by the solve of the fixed-point loop")
+        else:
+            rep.bad("C16.R9", C, ret.ast, f"returned `{e.id}` stems from the contact-free linear solve only: the solves of the contact fixed point never reach it, so with active "
+                    "contacts it is stale and the returned set violates the equations of motion", f"{SB}:{ret.lineno}")
+
+
 def run(ctx):
     rep = ctx.rep
     rep.rule("C16.R1", "EOM term set of the initial linear system", 8)
@@ -71,6 +147,10 @@ def run(ctx):
     rep.rule("C16.R5", "one scalar prox parameter per vector-valued friction law (Coulomb direction at acceleration level)", 2)
     fn = ctx.repo.get(SB, "consistent_initial_conditions")
     C = f"{SB}:consistent_initial_conditions"
+    rep.rule("C16.R8", "the contact fixed point runs whenever an active set it solves for is non-empty (constant-reservoir friction)", 2)
+    loop = fixed_point_gate(ctx, fn, C)
+    rep.rule("C16.R9", "all unknowns of the initial linear system are taken from the converged solve", 3)
+    one_solve(ctx, fn, C, loop)
     res = termset.Resolver(fn)
     # ---- R1
     sites = termset.eom_sites(fn, res)
@@ -233,4 +313,18 @@ MUTANTS += [
     dict(id="c16-r5-1", canary=True, what="consistent initial conditions: per-component prox parameter in the slip projection (original defect)", file=SB,
          old="                    min(prox_r_F[i_F]) * gamma_Fi - la_F[i_F],", new="                    prox_r_F[i_F] * gamma_Fi - la_F[i_F],", expect="C16.R5"),
 ]
-NEUTRAL = []
+MUTANTS += [
+    dict(id="c16-r8-1", canary=True, what="fixed point gated by the normal active set only (original defect F45)", file=SB,
+         old="    if len(B_N) > 0 or len(B_F) > 0:\n", new="    if len(B_N) > 0:\n", expect="C16.R8"),
+    dict(id="c16-r9-seed", canary=True, what="[seeded by sub-agent] constraint forces unpacked once from the contact-free solve, loop carries accelerations only", file=SB,
+         edits=[(SB, "    x0 = lu.solve(b0)\n", "    x0 = lu.solve(b0)\n    _, la_g0, la_gamma0 = np.array_split(x0, split_x)\n"),
+                (SB, "    u_dot0, la_g0, la_gamma0 = np.array_split(x0, split_x)\n", "    u_dot0 = x0[: system.nu]\n")],
+         expect="C16.R9"),
+]
+NEUTRAL = [
+    dict(id="c16-n-r8", canary=True, what="fixed point unguarded", file=SB,
+         old="    if len(B_N) > 0 or len(B_F) > 0:\n", new="    if True:\n"),
+    dict(id="c16-n-r9", what="solution split through slices instead of array_split", file=SB,
+         old="    u_dot0, la_g0, la_gamma0 = np.array_split(x0, split_x)\n",
+         new="    u_dot0 = x0[: system.nu]\n    la_g0 = x0[system.nu : system.nu + system.nla_g]\n    la_gamma0 = x0[system.nu + system.nla_g :]\n"),
+]
